@@ -245,6 +245,89 @@ def generate(repo, g):
     g.define('stubFolderSuffix', 'String', lean_str(ast.literal_eval(stub[len('name + '):])),
              'jedi/api/project.py:Project._search_func `stub_folder_name = name + ..`')
 
+    # the regex pre-filter of step 2: search_in_file_ios builds the pattern, _check_fs applies it.
+    #   regex = re.compile(r'\b' + re.escape(name) + (r'' if complete else r'\b'))
+    #   def _check_fs(inference_state, file_io, regex):
+    #       try: code = file_io.read()  except FileNotFoundError: return None
+    #       code = python_bytes_to_unicode(code, errors='replace')
+    #       if not regex.search(code): return None
+    #       new_file_io = KnownContentFileIO(file_io.path, code); m = load_module_from_path(..); ...
+    # Transcribed: the parts of the pattern, whether it is a bytes pattern (`.encode(..)`), the flags,
+    # and the ORDER of the steps of _check_fs (what regex.search sees: the decoded text or the raw
+    # bytes).  `prefilter_complete` is stated over these constants.
+    fn = refs.find('search_in_file_ios')
+    regs = [n for n in fn.body if isinstance(n, ast.Assign) and u(n.targets[0]) == 'regex']
+    if len(regs) != 1 or not (isinstance(regs[0].value, ast.Call) and u(regs[0].value.func) == 're.compile'
+                              and regs[0].value.args):
+        raise TieBroken('references.py: search_in_file_ios: `regex = re.compile(..)` not found')
+    call = regs[0].value
+    flags = []
+    for extra in call.args[1:] + [k.value for k in call.keywords]:
+        for part in u(extra).split('|'):
+            part = part.strip()
+            if not part.startswith('re.'):
+                raise TieBroken('references.py: search_in_file_ios: unknown regex flag', u(extra))
+            flags.append({'A': 'ASCII', 'I': 'IGNORECASE', 'U': 'UNICODE'}.get(part[3:], part[3:]))
+    pat = call.args[0]
+    is_bytes = False
+    if isinstance(pat, ast.Call) and isinstance(pat.func, ast.Attribute) and pat.func.attr == 'encode':
+        is_bytes = True
+        pat = pat.func.value
+
+    def flat(e):
+        if isinstance(e, ast.BinOp) and isinstance(e.op, ast.Add):
+            return flat(e.left) + flat(e.right)
+        return [e]
+    parts = []
+    for e in flat(pat):
+        t = u(e)
+        if isinstance(e, ast.Constant) and e.value in ('\\b', b'\\b'):
+            is_bytes = is_bytes or isinstance(e.value, bytes)
+            parts.append('\\b')
+        elif t == 're.escape(name)':
+            parts.append('escape(name)')
+        elif t in ("'' if complete else '\\\\b'", "b'' if complete else b'\\\\b'"):
+            parts.append('\\b unless complete')
+        elif t == "'\\\\b' if re.match('\\\\w', name) else ''":
+            parts.append('\\b if name starts with \\w')
+        elif t == "'\\\\b' if not complete and re.search('\\\\w$', name) else ''":
+            parts.append('\\b unless complete if name ends with \\w')
+        else:
+            raise TieBroken('references.py: search_in_file_ios: unknown part of the pre-filter pattern', t)
+    g.define('prefilterPattern', 'List String', lean_list(parts),
+             'jedi/inference/references.py:search_in_file_ios `regex = re.compile(..)`')
+    g.define('prefilterPatternIsBytes', 'Bool', lean_bool(is_bytes),
+             'jedi/inference/references.py:search_in_file_ios: the pattern is encoded / a bytes literal')
+    g.define('prefilterFlags', 'List String', lean_list(flags),
+             'jedi/inference/references.py:search_in_file_ios: flags of re.compile')
+    uses = [n for n in ast.walk(fn) if isinstance(n, ast.Call) and u(n.func) == '_check_fs']
+    if len(uses) != 1 or [u(x) for x in uses[0].args] != ['inference_state', 'file_io', 'regex']:
+        raise TieBroken('references.py: search_in_file_ios no longer calls _check_fs(inference_state, file_io, regex)')
+    fn = refs.find('_check_fs')
+    steps = []
+    for st in fn.body:
+        t = u(st)
+        if isinstance(st, ast.Try):
+            if [u(x) for x in st.body] != ['code = file_io.read()']:
+                raise TieBroken('references.py: _check_fs: the try block is not `code = file_io.read()`', t)
+            steps.append('read')
+        elif t.startswith('code = python_bytes_to_unicode(code'):
+            steps.append('decode')
+        elif t == 'if not regex.search(code):\n    return None':
+            steps.append('search')
+        elif t == 'new_file_io = KnownContentFileIO(file_io.path, code)':
+            steps.append('wrap')
+        elif t == 'm = load_module_from_path(inference_state, new_file_io)':
+            steps.append('load')
+        elif t == 'if m.is_compiled():\n    return None':
+            steps.append('compiled')
+        elif t == 'return m.as_context()':
+            steps.append('return')
+        else:
+            raise TieBroken('references.py: _check_fs: unknown statement', t)
+    g.define('checkFsSteps', 'List String', lean_list(steps),
+             'jedi/inference/references.py:_check_fs, statement by statement')
+
     for s, d in [(refs, 'recurse_find_python_folders_and_files'), (refs, 'gitignored_paths'),
                  (refs, 'expand_relative_ignore_paths'), (refs, 'search_in_file_ios'), (refs, '_check_fs'),
                  (fio, 'FolderIO.walk'), (helpers, 'split_search_string'), (helpers, 'get_module_names'),
